@@ -70,6 +70,20 @@ func main() {
 			os.RemoveAll(tmp)
 			os.Exit(3)
 		}()
+		// memory watchdog: an exploration that blows up (e.g. a changed retry loop the bounds do not
+		// catch) ends as INCONCLUSIVE instead of exhausting the machine
+		go func() {
+			var ms runtime.MemStats
+			for {
+				time.Sleep(2 * time.Second)
+				runtime.ReadMemStats(&ms)
+				if ms.Sys > 24<<30 {
+					fmt.Printf("INCONCLUSIVE property=%s watchdog: engine memory exceeded 24 GiB (exploration blow-up)\n", *prop)
+					os.RemoveAll(tmp)
+					os.Exit(3)
+				}
+			}
+		}()
 		code := check(cfg, *prop, !*noEvidence)
 		os.RemoveAll(tmp)
 		os.Exit(code)
